@@ -1323,7 +1323,8 @@ package spine
 //@   ensures[C08] same-function: result0 != nil ==> has(r.functionDataMap, function) && result0 == r.functionDataMap[function]
 //@   ensures[C08] unknown-function: !(has(r.functionDataMap, function) && r.functionDataMap[function] != nil) ==> result0 == nil && result1 != nil
 //@   ensures[C08] update-args: result0 != nil ==> arg(UpdateDataAny, 0) == result0 && arg(UpdateDataAny, 1) == remoteWrite && arg(UpdateDataAny, 2) == true && arg(UpdateDataAny, 3) == data && arg(UpdateDataAny, 4) == filterPartial && arg(UpdateDataAny, 5) == filterDelete && result1 == res(UpdateDataAny, 1)
-//@   modifies world, held, wm, cells(model.ErrorType), cells(model.DescriptionType)
+//@   ensures[C08,C01] error-number: result1 != nil ==> result1.ErrorNumber != model.ErrorNumberTypeNoError
+//@   modifies world, held, wm, new(model.ErrorType), new(model.DescriptionType)
 
 //@ func (*FeatureLocal).SetData
 //@   requires r != nil && r.Feature != nil && r.entity != nil
@@ -1331,7 +1332,7 @@ package spine
 //@   ensures[C08] update-args: arg(updateData, 1) == false && arg(updateData, 2) == function && arg(updateData, 3) == data && arg(updateData, 4) == nil && arg(updateData, 5) == nil
 //@   ensures[C08] announced-once: OK ==> nsn == old(nsn) + 1 && nsdev[old(nsn)] == r.entity.Device() && nsaddr[old(nsn)] == r.Feature.address && nscmd[old(nsn)] == cmdKey(res(NotifyOrWriteCmdType, 0)) && arg(NotifyOrWriteCmdType, 0) == res(updateData, 0) && arg(NotifyOrWriteCmdType, 1) == nil && arg(NotifyOrWriteCmdType, 2) == nil && arg(NotifyOrWriteCmdType, 3) == false && arg(NotifyOrWriteCmdType, 4) == nil
 //@   ensures[C08] failed-silent: !OK ==> nsn == old(nsn) && ntn == old(ntn)
-//@   modifies world, held, wm, outmisc, @NTLOG, cells(model.ErrorType), cells(model.DescriptionType), new(any)
+//@   modifies world, held, wm, outmisc, @NTLOG, new(model.ErrorType), new(model.DescriptionType), new(any)
 
 //@ func (*FeatureLocal).UpdateData
 //@   requires r != nil && r.Feature != nil && r.entity != nil
@@ -1339,4 +1340,4 @@ package spine
 //@   ensures[C08] update-args: arg(updateData, 1) == false && arg(updateData, 2) == function && arg(updateData, 3) == data && arg(updateData, 4) == filterPartial && arg(updateData, 5) == filterDelete && result == res(updateData, 1)
 //@   ensures[C08] announced-once: OK ==> nsn == old(nsn) + 1 && nsdev[old(nsn)] == r.entity.Device() && nsaddr[old(nsn)] == r.Feature.address && nscmd[old(nsn)] == cmdKey(res(NotifyOrWriteCmdType, 0)) && arg(NotifyOrWriteCmdType, 0) == res(updateData, 0)
 //@   ensures[C08] failed-silent: !OK ==> nsn == old(nsn) && ntn == old(ntn)
-//@   modifies world, held, wm, outmisc, @NTLOG, cells(model.ErrorType), cells(model.DescriptionType), new(any), new(model.FilterData)
+//@   modifies world, held, wm, outmisc, @NTLOG, new(model.ErrorType), new(model.DescriptionType), new(any), new(model.FilterData)
